@@ -5,7 +5,7 @@
    theorems are about File_Close AS FOUND IN THE SOURCE, and stop type-checking if it regresses.
    All statements hold for every byte type B, every zero byte, every classification of bytes
    and every set of creatable paths / of paths whose fclose fails. *)
-From CelloV Require Import Generated FileModel FileProofs FileRoundTrip FileExamples FileTie.
+From CelloV Require Import Generated FileModel FileProofs FileRoundTrip FileText FileExamples FileTie.
 From Coq Require Import List ZArith.
 Import ListNotations.
 
@@ -135,6 +135,36 @@ Example write_read_roundtrip_seek_nonvacuous :
      OkRead nat 1 [5; 6]; OkRead nat 1 [7];
      OkNum nat 3; OkBool nat false; OkRead nat 0 []; OkBool nat true].
 Proof. exact FileExamples.seek_example. Qed.
+
+(* 6b. text: records "[sign]digits SP word NL" written by print_to(f,0,"%ld %s\n",k,w) are scanned back
+       identical by scan_from(f,0,"%ld %s\n",...) after sclose + sopen, after ANY prefix history that
+       leaves the File closed; seof is true after the last record and one more scan_from raises
+       FormatError.  For every classification of bytes with white space, digits, signs disjoint. *)
+Theorem print_scan_roundtrip_reopen :
+  forall (B : Type) (zero : B) (is_ws is_digit is_sign : B -> bool) (creatable close_fails : nat -> bool) (sp nl : B),
+  (forall b, is_ws b = true -> is_digit b = false) ->
+  (forall b, is_digit b = true -> is_sign b = false) ->
+  (forall b, is_sign b = true -> is_ws b = false) ->
+  is_ws sp = true -> is_ws nl = true ->
+  forall (fs : fsys B) (objs : nat -> fobj) (pre : list (op B)) (i p : nat) (mw mr : mode) (rs : list (trec B)),
+  (forall j h, objs j <> FObj (Some h)) ->
+  let w := fst (run B zero is_ws is_digit is_sign creatable close_fails file_close_tests_closed file_close_clears_always (w_init B fs objs) pre) in
+  w_objs B w i = FObj None -> creatable p = true -> close_fails p = false ->
+  trunc_mode mw -> from_start_mode mr -> Forall (well_formed B is_ws is_digit is_sign) rs ->
+  snd (run B zero is_ws is_digit is_sign creatable close_fails file_close_tests_closed file_close_clears_always w
+         (text_history B sp nl i p mw mr rs)) = text_outcome B sp nl rs.
+Proof. exact FileText.text_roundtrip. Qed.
+Print Assumptions print_scan_roundtrip_reopen.
+
+Example print_scan_roundtrip_reopen_nonvacuous :
+  (forall b, xws b = true -> xdigit b = false) /\ (forall b, xdigit b = true -> xsign b = false) /\
+  (forall b, xsign b = true -> xws b = false) /\
+  well_formed nat xws xdigit xsign xrec1 /\ well_formed nat xws xdigit xsign xrec2 /\
+  snd (xrun true true (text_history nat 32 10 2 1 MW MR [xrec1; xrec2]))
+  = [OkUnit nat; OkUnit nat; OkUnit nat; OkUnit nat; OkUnit nat;
+     OkScan nat [45; 55] [119; 111]; OkScan nat [49; 50] [104; 101; 108; 108; 111];
+     OkBool nat true; ORaise nat FFormatError].
+Proof. exact (conj FileExamples.x_ws_not_digit (conj FileExamples.x_digit_not_sign (conj FileExamples.x_sign_not_ws FileExamples.text_example))). Qed.
 
 (* 7. the File_Close of the pinned tree is refuted on the same model (kept next to the positive
       theorems): without the closed test sclose twice calls fclose(NULL) (D19); keeping the handle
